@@ -773,7 +773,7 @@ def witness_programs():
 def gen_programs(ck):
     rng = ck.rng
     progs = []
-    n = ck.pick(1500, 12000)
+    n = ck.pick(1500, 40000)
     for i in range(n):
         r = rng.random()
         clean = r < 0.85
